@@ -4,6 +4,7 @@ import warnings
 import numpy as np
 
 from harness.core import Machinery
+from checks import binding
 from checks.flowgrid import make_grid
 
 LEVEL = "model_checking"
@@ -199,10 +200,11 @@ def code_to_spec(ctx, gridmod, n):
     with open(path, "w") as f:
         for r in recs:
             f.write(json.dumps(r) + "\n")
-    res = ctx.tlc("GridWeightsTrace", "MC_GridWeightsTrace.cfg", workers=1, timeout=3000, heap="6g",
+    res = ctx.tlc("GridWeightsTrace", "MC_GridWeightsTrace.cfg", timeout=3000, heap="6g",
                   env={"TRACE_FILE": str(path)})
     if not res.tuples("VALIDATED"):
         raise Machinery("GridWeightsTrace did not complete:\n" + res.out[-2500:])
+    ctx.binding_demo("GridWeightsTrace", "MC_GridWeightsTrace.cfg", path, binding.weights, timeout=3000, heap="6g")
     for line in res.tuples("REJECT"):
         parts = line.strip("<>").split(",")
         r = recs[int(parts[1]) - 1]
